@@ -440,8 +440,27 @@ def check_unwind(pid, tier, seed):
         violations += found
         search_note = "failing-input search over %d further histories: %s" % (len(extra), "found" if found else "none found")
 
+    # deferred work queued after a caught destructor panic (implementation alone)
+    lz = lazy_after_fault_histories(tier, seed)
+    lz_lines = run_harness(common.build_harness(False), [h for h, _ in lz])
+    lz_bad, lz_fired = [], 0
+    for (h, expect), line in zip(lz, lz_lines):
+        v = lazy_after_fault_violation(h, expect, line)
+        if v:
+            lz_bad.append((v, h, expect, line))
+        if line is not None and any(e[:2] == [10, 1] for e in parse_tr(line)):
+            lz_fired += 1
+
     rc, replay = 0, None
-    if violations:
+    if lz_bad and not violations:
+        v, h, expect, line = min(lz_bad, key=lambda t: len(t[1]))
+        replay = common.write_replay(pid, dict(property=pid, domain="unwind-lazy", history=pretty_lazy(h),
+                                               encoded=ug.encode(h), expect=[list(e[:1]) + list(e[1]) + [e[2]] for e in expect],
+                                               transcript=line, what=v, violating_histories=len(lz_bad),
+                                               replay_cmd="./sv replay <this file>"))
+        print("VIOLATION property=%s replay=%s" % (pid, replay))
+        rc = 1
+    elif violations:
         order = {"double-drop": 0, "stale-read": 1, "crash": 2, "panic": 3, "unusable": 4}
         # a repeated real uid first, then stale reads, crashes; the count of unit values last among the double drops
         violations.sort(key=lambda r: (order.get(r["direct"][0][0], 9), "unit values" in r["direct"][0][1], len(r["hist"])))
@@ -506,7 +525,12 @@ def check_unwind(pid, tier, seed):
                                other_panic=sum(1 for r in results for k, _, _ in r["direct"] if k == "panic"),
                                unusable=sum(1 for r in results for k, _, _ in r["direct"] if k == "unusable")),
             faithful_model_diverged=bool(div),
-            evaluations=len(results), distinct_nontrivial=len(nontriv), distinct=len(distinct),
+            deferred_work_after_a_caught_panic=dict(
+                histories=len(lz), with_the_panic_inside_the_maintain=lz_fired, disagreements=len(lz_bad),
+                what="implementation alone: a component destructor panics inside a deferred removal / overwriting "
+                     "insertion during World::maintain (caught); deferred insertions and removals queued afterwards "
+                     "must be performed by the next maintain, for every storage id"),
+            evaluations=len(results) + len(lz), distinct_nontrivial=len(nontriv), distinct=len(distinct),
             rule="histories: every storage id (16) x every destroying operation (clear, remove, insert over / into a "
                  "vacant cell / for a dead entity, delete_entity, delete_entities (also failing part-way), delete_all, "
                  "entities.delete + maintain, drop of the MaskedStorage, drop of the World) x content shapes, several "
@@ -524,11 +548,17 @@ def check_unwind(pid, tier, seed):
                      "at most one destructor fault per operation: a destructor that panics while another panic "
                      "unwinds aborts the process by the language's rules",
                      "handles passed to the world were returned by it"],
-        wall_s=round(time.time() - t0, 2), violations=len(violations),
+        wall_s=round(time.time() - t0, 2), violations=len(violations) + len(lz_bad),
     )
     common.write_evidence(pid, ev)
     common.cleanup_run_dir()
     return rc
+
+
+def pretty_lazy(h):
+    names = dict(ug.NAMES)
+    names.update({92: "lazy.remove", 93: "lazy.insert"})
+    return "; ".join("%s(%s)" % (names.get(c, "op%d" % c), ",".join(str(x) for x in p)) for c, p in h)
 
 
 def replay(obj, path):
@@ -621,4 +651,85 @@ def fault_event_violation(h, line):
                 return ("storage %d: the events delivered (%s) replay to the members %s but the storage holds %s" % (
                     p[0], [("Inserted", "Modified", "Removed")[evs[k]] + "(%d)" % evs[k + 1] for k in range(0, len(evs), 2)],
                     sorted(have), sorted(mask)))
+    return None
+
+
+# ------------------------------------------------------------------ deferred work after a caught destructor panic
+#
+# Implementation alone (the unwinding model has no deferred operations): a component destructor panics inside a
+# deferred removal / overwriting insertion while World::maintain works off the queue; the panic is caught; deferred
+# work queued *afterwards* must still be performed by the next maintain (the world stays usable).  What was still
+# queued behind the panicking action at that moment is discarded by the unchanged code (DESIGN 6) and is not asked for.
+
+LAZY_REMOVE, LAZY_INSERT = 92, 93
+
+
+def lazy_after_fault_histories(tier, seed):
+    rng = random.Random(seed * 6151 + 19)
+    out = []
+    n = 64 if tier == "quick" else 640
+    for k in range(n):
+        sid = k % 16
+        others = rng.sample([s for s in range(16) if s != sid], rng.randint(0, 2))
+        h = [(ug.REG, [s]) for s in [sid] + others]
+        uid = [100]
+
+        def tok():
+            uid[0] += 1
+            return uid[0], rng.randint(-50, 50)
+        u0, v0 = tok()
+        h.append((ug.CREATE, [sid, u0, v0]))                     # handle 0: owns the value whose destructor panics
+        h.append((ug.CREATE, []))                                # handle 1: bare
+        u2, v2 = tok()
+        h.append((ug.CREATE, [sid, u2, v2]))                     # handle 2: owns a value to be removed later
+        if rng.random() < 0.5:
+            h.append((LAZY_REMOVE, [sid, 0]))
+        else:
+            u, v = tok()
+            h.append((LAZY_INSERT, [sid, 0, u, v]))              # overwrites: the old value is destroyed
+        h.append((ug.ARM, [1]))                                  # (a plan applies to the next operation only)
+        h.append((ug.MAINTAIN, []))                              # the armed destructor panics in here
+        expect = []
+        u1, v1 = tok()
+        h.append((LAZY_INSERT, [sid, 1, u1, v1]))
+        h.append((LAZY_REMOVE, [sid, 2]))
+        o = rng.choice(others) if others else None
+        if o is not None:
+            uo, vo = tok()
+            h.append((LAZY_INSERT, [o, 1, uo, vo]))
+        h.append((ug.MAINTAIN, []))
+        expect.append((len(h), (sid, 1), True))
+        h.append((ug.GET, [sid, 1]))
+        expect.append((len(h), (sid, 2), False))
+        h.append((ug.GET, [sid, 2]))
+        if o is not None:
+            expect.append((len(h), (o, 1), True))
+            h.append((ug.GET, [o, 1]))
+        out.append((h, expect))
+    return out
+
+
+def lazy_after_fault_violation(h, expect, line):
+    if line is None:
+        return "the harness died"
+    impl = parse_tr(line)
+    fired = False
+    for pos, (code, p) in enumerate(h):
+        if code == ug.MAINTAIN and 2 * pos + 1 < len(impl) and impl[2 * pos + 1][:2] == [10, 1]:
+            fired = True
+            break
+    if not fired:
+        return None                     # the armed destructor did not run inside the maintain: nothing to ask
+    for pos, (sid, hd), present in expect:
+        if 2 * pos >= len(impl):
+            return "the transcript ends before operation %d" % pos
+        out = impl[2 * pos]
+        if sid in (5,) and present:
+            ok = out[:2] == [12, 1]     # the null storage holds unit values
+        else:
+            ok = (out[:2] == [12, 1]) if present else (out[:2] == [12, 0])
+        if not ok:
+            return ("after a component destructor panicked inside a deferred operation (caught), deferred work queued "
+                    "afterwards was not performed by the next maintain: storage %d, handle %d is %s, expected %s" % (
+                        sid, hd, "present" if out[:2] == [12, 1] else "absent", "present" if present else "absent"))
     return None
